@@ -126,6 +126,8 @@ func RunSched(p *SchedProg) (violation string, steps int) {
 		return schedStream(p)
 	case "sched-fallback":
 		return schedFallback(p)
+	case "sched-addr":
+		return schedAddr(p)
 	}
 	return "", 0
 }
@@ -405,6 +407,68 @@ func schedFallback(p *SchedProg) (string, int) {
 		x.Done(balancer.DoneInfo{})
 		if got != others[1] {
 			return fmt.Sprintf("C08|after the stand-in (conn %d) failed, a call for the bound key is placed on conn %d, which is not READY, although conn %d is READY", victim.id, got.id, others[1].id), res.Steps
+		}
+	}
+	return "", res.Steps
+}
+
+// schedAddr: a refresh-triggering completion races with a resolver update that changes the address
+// list. Afterwards every connection of the pool (incl. the replacement that took over) uses the latest list (C20).
+func schedAddr(p *SchedProg) (string, int) {
+	min := 1 + p.Extra%2
+	e, err := newPoolEnv(fmt.Sprintf(`{"channelPool":{"minSize":%d,"maxSize":3,"unresponsiveDetectionMs":1,"unresponsiveCalls":1},%s}`, min, schedMethods), 3, true)
+	if err != nil {
+		return "C17|" + err.Error(), 0
+	}
+	e.bringUpAll()
+	pk := e.readyPickers()
+	cur := pk[len(pk)-1]
+	type call struct {
+		res    balancer.PickResult
+		cancel context.CancelFunc
+	}
+	var cs []call
+	for i := 0; i < min; i++ {
+		ctx, cancel := context.WithDeadline(context.Background(), time.Now().Add(-time.Second))
+		r, err := cur.Pick(balancer.PickInfo{Ctx: ctx, FullMethodName: "/plain"})
+		if err != nil {
+			cancel()
+			return "C02|setup pick failed: " + err.Error(), 0
+		}
+		cs = append(cs, call{r, cancel})
+	}
+	time.Sleep(2500 * time.Microsecond)
+	newAddrs := []resolver.Address{{Addr: "B"}, {Addr: "B2"}}
+	s := NewSched()
+	for i, c := range cs {
+		c := c
+		s.Go(fmt.Sprintf("completion%d", i), func() {
+			me := gid()
+			e.cc.doneConn.Store(me, c.res.SubConn.(*csc))
+			c.res.Done(balancer.DoneInfo{Err: deErr})
+			e.cc.doneConn.Delete(me)
+			c.cancel()
+		})
+	}
+	s.Go("resolver", func() {
+		e.b.UpdateClientConnState(balancer.ClientConnState{ResolverState: resolver.State{Addresses: newAddrs}})
+	})
+	res, v := p.run(s, 600, func() string { return violationOf(e.cc) })
+	p.Trace = s.Trace
+	s.Drain()
+	if j := judgeSched(res, v); j != "" {
+		return j, res.Steps
+	}
+	e.bringUpAll() // replacements take over
+	want := addrKey(newAddrs)
+	e.cc.mu.Lock()
+	defer e.cc.mu.Unlock()
+	for _, sc := range e.cc.all {
+		sc.mu.Lock()
+		a := sc.addrs
+		sc.mu.Unlock()
+		if e.cc.removed[sc] == 0 && a != want {
+			return fmt.Sprintf("C20|connection %d of the pool (replacement=%v) uses address list %q after the resolver update to %q", sc.id, sc.refresh, a, want), res.Steps
 		}
 	}
 	return "", res.Steps
